@@ -1,5 +1,6 @@
 """C11 - kdtree results are independent of worker count, chunking and compression; max_returns."""
 import itertools
+import math
 from mc.core import Space, HarnessError, raised
 from mc import enum as E
 from mc.refmodel import neighbors_within, ref_lev, ref_hamming
@@ -13,13 +14,18 @@ RULE = ("configurations: every (list, n_cpu, mode) of the grid is run on the rea
         "order are enumerated exhaustively; max_returns: per query count/true/closest checks; non-trivial = expected set non-empty")
 ASSUMPTIONS = ["real OS timing of pool workers is not controlled; Pool.map is order-preserving by contract and every chunk schedule is enumerated in the virtual pool",
                "virtual pool models Pool(n) with map/starmap/imap/imap_unordered and the fork start method"]
-REQUIRED_CLASSES = {"all": ["n_cpu>len", "n_cpu==len", "chunksize-does-not-divide", "virtual-schedule", "compression>1", "max_returns-truncates", "mode-hamming", "mode-callable", "long-sequences>=127", "all-sequences-of-one-length"]}
+REQUIRED_CLASSES = {"all": ["n_cpu>len", "n_cpu==len", "chunksize-does-not-divide", "virtual-schedule", "compression>1", "max_returns-truncates", "mode-hamming", "mode-callable", "long-sequences>=127", "all-sequences-of-one-length", "isolated-sequences"]}
 MIN_OUTCOMES = 10
 
-MODES = ("default", "hamming", "callable", "callable-half", "callable-rapidfuzz")
+MODES = ("default", "hamming", "callable", "callable-half", "callable-rapidfuzz",
+         # a radius one ulp below an attained real-valued distance (no tolerance: 0.1 > nextafter(0.1, 0)), and a stray
+         # max_custom_distance without a custom distance (documented as ignored)
+         "callable-tenth-below-0.1", "callable-tenth-below-0.2", "default-stray-maxcd", "hamming-stray-maxcd")
 MR_MODES = MODES + ("callable-lendiff",)     # max_returns also with a custom distance that does not rank candidates like Levenshtein
 _BASE = ["AC", "A", "CA", "AA", "ACD", "C", "CAD", "AAC", "", "ACC", "DA", "AD", "CC", "AC", "ADC", "D", "CD"]
 SIZES = (1, 2, 3, 4, 5, 6, 7, 8, 9, 11, 13, 16, 17)
+# the same with isolated sequences (no candidate but themselves inside the KD ball) before, between and after the others
+_ISO = ["WWWWWWW", "AC", "A", "YYYYYYYYY", "CA", "AA", "WYWYWYWYWYW", "ACD", "C", "CAD", "HHHHHHHH", "HHHHHHHH", "AAC", "", "ACC", "FFFFFFFFFF", "DA"]
 
 
 def lendiff_lev(a, b):
@@ -34,9 +40,19 @@ def half_lev(a, b):
     return ref_lev(a, b) / 2
 
 
+def tenth_lev(a, b):
+    return 0.1 * ref_lev(a, b)
+
+
 def mode_kw(mode):
     if mode == "default":
         return {}
+    if mode == "default-stray-maxcd":
+        return dict(max_custom_distance=0.5)
+    if mode == "hamming-stray-maxcd":
+        return dict(custom_distance="hamming", max_custom_distance=0)
+    if mode.startswith("callable-tenth-below-"):
+        return dict(custom_distance=tenth_lev, max_custom_distance=math.nextafter(float(mode.rsplit("-", 1)[1]), 0.0))
     if mode == "hamming":
         return dict(custom_distance="hamming")
     if mode == "callable-lendiff":
@@ -51,11 +67,14 @@ def mode_kw(mode):
 
 
 def expected(seqs, k, mode):
-    if mode == "hamming":
+    if mode in ("hamming", "hamming-stray-maxcd"):
         return neighbors_within(list(seqs), k, dist="hamming")
     base = neighbors_within(list(seqs), k)
-    if mode == "default":
+    if mode in ("default", "default-stray-maxcd"):
         return base
+    if mode.startswith("callable-tenth-below-"):
+        T = math.nextafter(float(mode.rsplit("-", 1)[1]), 0.0)
+        return {(i, j, 0.1 * d) for i, j, d in base if 0.1 * d <= T}
     if mode == "callable-lendiff":
         return {(i, j, lendiff(seqs[i], seqs[j])) for i, j, d in base}
     if mode == "callable-half":
@@ -74,6 +93,9 @@ def spaces(tier):
             for ncpu in ncpus:
                 for mode in MODES:
                     yield ("real", n, ncpu, mode, 1 if n < 9 else 2)
+                if n >= 3:
+                    for mode in ("default", "hamming", "callable"):
+                        yield ("real", n, ncpu, mode, 1 if n < 9 else 2, "isolated")
 
     def gen_comp():
         for alpha, L in (("ACD", 4), ("AC", 5)):
@@ -131,8 +153,11 @@ def _report(acc, key, case, exp, res, note=""):
 def check_case(case, acc):
     kind = case[0]
     if kind == "real":
-        _, n, ncpu, mode, k = case
+        n, ncpu, mode, k = case[1:5]
         seqs = _BASE[:n]
+        if len(case) > 5:
+            seqs = _ISO[:n]
+            acc.cls("isolated-sequences")
         if ncpu > n:
             acc.cls("n_cpu>len")
         if ncpu == n:
